@@ -18,7 +18,7 @@ enum Node {
     Lit(String),
     /// `{` followed by a whitespace character, standing for itself
     BraceWs(char),
-    Ph { key: &'static str, colon: bool, align: Option<Align>, width: Option<u64>, trunc: bool, style: Option<String>, alt: Option<String> },
+    Ph { key: &'static str, colon: bool, align: Option<Align>, width: Option<u128>, trunc: bool, style: Option<String>, alt: Option<String> },
     NL,
 }
 
@@ -50,10 +50,20 @@ fn gen_ast(rng: &mut Rng) -> Vec<Node> {
                         0 => 0,
                         1 => 65535,
                         2 => 65536,
-                        3 => rng.range(65536, 70000),
+                        3 => rng.range(65536, 70000) as u128,
                         4 => 99999,
-                        5 => rng.range(100_000, u64::MAX / 2),
-                        _ => rng.range(1, 40),
+                        5 => rng.range(100_000, u64::MAX / 2) as u128,
+                        6 => {
+                            // beyond every machine word: 20-38 digits
+                            let digits = rng.range(20, 38);
+                            let mut v: u128 = rng.range(1, 9) as u128;
+                            for _ in 1..digits {
+                                v = v * 10 + rng.range(0, 9) as u128;
+                            }
+                            v
+                        }
+                        7 => *rng.pick(&[u64::MAX as u128, u64::MAX as u128 + 1, u32::MAX as u128, u32::MAX as u128 + 1, u128::MAX]),
+                        _ => rng.range(1, 40) as u128,
                     })
                 } else {
                     None
@@ -169,7 +179,7 @@ fn reference(ast: &[Node], msg: &str, prefix: &str, pos: u64, len: u64) -> Vec<V
     lines
 }
 
-fn max_width(ast: &[Node]) -> u64 {
+fn max_width(ast: &[Node]) -> u128 {
     ast.iter()
         .filter_map(|n| match n {
             Node::Ph { width, .. } => *width,
@@ -244,6 +254,9 @@ fn run_case(seed: u64, idx: u64) -> CaseOut {
     for _ in 0..6 {
         strings.push(random_string(&mut rng));
     }
+    // numeric fields of any length (they must be rejected, not unwrapped, when they do not fit)
+    let digits: String = (0..rng.range(1, 45)).map(|_| char::from(b'0' + rng.below(10) as u8)).collect();
+    strings.push(format!("{{{}:{}{}{}}}", KEYS[rng.usize(KEYS.len())], ["", "<", "^", ">"][rng.usize(4)], digits, if rng.chance(1, 2) { "!" } else { "" }));
     for s in &strings {
         parsed += 1;
         if let Err(e) = parse_total(s) {
@@ -255,7 +268,7 @@ fn run_case(seed: u64, idx: u64) -> CaseOut {
     }
     co.count("strings_parsed", parsed);
     // ---- B: fidelity ---------------------------------------------------------------------------
-    let too_wide = max_width(&ast) > u16::MAX as u64;
+    let too_wide = max_width(&ast) > u16::MAX as u128;
     let accepted = ProgressStyle::with_template(&tmpl);
     if too_wide {
         if accepted.is_ok() {
